@@ -80,9 +80,8 @@ Definition model_obs (i : input) : obs :=
      o_fn_crcok := forallb (fun b => m_sum (bt_meta b) =? batch_crc crc (bt_lookups b)) bts;
      o_vars := map (vobs_of crc i) (i_vars i) |}.
 
-(* ---- comparison.  r_count (rangeIndex.count) is an internal counter that legitimately differs
-   between the two opens; the model reproduces it, so it stays in the model/implementation
-   comparison, but it is not part of the property.  r_idx of the C03 record is the existence of
+(* ---- comparison.  r_count (rangeIndex.count = journalChunkSource.count = what Count and iterateAllChunks
+   see) is reproduced by the model and is part of the property (see vobs_ok).  r_idx of the C03 record is the existence of
    an index file after the open: with an index image present it exists also after read-only opens,
    so it is compared through vo_idx_exists for the with-index open. ---- *)
 Definition res_eqb' (a b : res) : bool :=
@@ -102,8 +101,13 @@ Definition obs_eqb (a b : obs) : bool :=
 (* ---- the property on what the implementation returned: for every variant, the view with the
    index equals the view without it, and a read-only open modifies neither the journal nor the
    index file (and does not create one). ---- *)
+(* Count / the number of chunks iterateAllChunks visits (novel + cached entries) is observable through the store:
+   it must be the same with and without the index whenever both opens succeed.  (Histories with the same
+   address written on both sides of the indexed offset are outside the generator: there the real code counts
+   the address twice with a genuine index.) *)
 Definition vobs_ok (v : variant) (o : vobs) : bool :=
   view_eqb (view_of_res (vo_with o)) (view_of_res (vo_without o))
+  && (if (r_err (vo_with o) =? 0) && (r_err (vo_without o) =? 0) then r_count (vo_with o) =? r_count (vo_without o) else true)
   && (if v_ro v
       then r_unchanged (vo_with o) && r_unchanged (vo_without o) && vo_idx_same o && negb (r_idx (vo_without o))
       else true).
